@@ -112,7 +112,7 @@ def run(chk, replay=None):
         gst = {}
     else:
         behs, gst = vf.tlc_gen("IceGen.tla", "IceGenTour.cfg" if quick else "IceGenFull.cfg", steps_key=None)
-        packed, mx, nloops = pack(behs, rnd, 0.34 if quick else 1.0)
+        packed, mx, nloops = pack(behs, rnd, 0.2 if quick else 1.0)
         if not quick:
             # behaviours that wait for the component's 500 ms timer cost real time: a seeded sample of them
             ticky = [b for b in mx if any(s["a"] == "Tick" for s in b["steps"])]
@@ -154,6 +154,7 @@ def run(chk, replay=None):
     chk.cov["steps_without_quiescence"] = st["unquiet"]
     chk.cov["honest_negotiations"] = st["negos"]
     chk.cov["application_datagrams_carried"] = st["data"]
+    chk.cov["predicate_failures"] = s["nviol"]
     chk.cov["diverged_executions"] = s["ndiv"]
     chk.cov["first_divergences"] = s["divs"][:3]
     # quick samples the wrong-key/truncated no-effect steps; thorough replays every transition of the tour
@@ -210,21 +211,22 @@ def run(chk, replay=None):
                     "Priority": "an advertised candidate does not carry the RFC 5245 priority"}.get(prop, prop) + ": " + v["what"]
         if key not in cands or rank < cands[key][0]:
             cands[key] = (rank, sig, what, mini, prop)
-    nconf = 0
+    # at most 4 scripted + 2 negotiation candidates, the shortest histories first
     order = sorted(cands, key=lambda k: cands[k][0:2])
     order = [k for k in order if k[0] == "script"][:4] + [k for k in order if k[0] == "nego"][:2]
-    for key in order:
-        rank, sig, what, mini, prop = cands[key]
-        r2, s2, _ = run_and_validate(chk, [mini], "-confirm%d" % nconf)
-        nconf += 1
-        again = any(v["prop"] == prop for v in s2["viol"]) if mini["kind"] == "nego" else \
-            any(v["prop"] == "AuthOnly" and v["line"] == len(mini["steps"]) + 1 for v in s2["viol"])
-        if again:
-            chk.violation(sig, what, [mini])
-        else:
-            chk.note(f"not confirmed on re-run, not reported: {sig}")
-        if len(chk.violations) >= 6:
-            break
+    # one confirmation run for all of them (each execution starts from fresh objects)
+    if order:
+        minis = [cands[k][3] for k in order]
+        for i, m in enumerate(minis):
+            m["case"] = "confirm%d" % i
+        r2, s2, _ = run_and_validate(chk, minis, "-confirm")
+        for i, key in enumerate(order):
+            rank, sig, what, mini, prop = cands[key]
+            again = any(v["case"] == mini["case"] and v["prop"] == (prop if mini["kind"] == "nego" else "AuthOnly") for v in s2["viol"])
+            if again:
+                chk.violation(sig, what, [mini])
+            else:
+                chk.note(f"not confirmed on re-run, not reported: {sig}")
     chk.assumptions += [
         "the attacker is off-path for the honest negotiations (does not see transaction ids); in the scripted executions "
         "forged responses do carry the id of the outstanding check",
